@@ -17,6 +17,8 @@ import (
 	"go/token"
 	"go/types"
 	"strings"
+	"sync"
+	"time"
 
 	"honnef.co/go/tools/go/ir"
 )
@@ -598,6 +600,8 @@ func wfBuildProgram(pkgs []wfGenPkg, goMinor int, mode ir.BuilderMode) (built []
 	fset := token.NewFileSet()
 	imp := wfMapImporter{}
 	prog = ir.NewProgram(fset, mode)
+	// what internal/passes/buildir does with ctrlflow's facts: calls to these functions cannot return
+	prog.SetNoReturn(func(f *types.Func) bool { return strings.HasPrefix(f.Name(), "noret") })
 	type tc struct {
 		pkg   *types.Package
 		files []*ast.File
@@ -644,7 +648,45 @@ func wfBuildProgram(pkgs []wfGenPkg, goMinor int, mode ir.BuilderMode) (built []
 			prog.Build()
 		}()
 	} else {
-		prog.Build() // concurrent: a builder panic would be fatal here, as it is for every client
+		// Concurrent building is what Program.Build does without BuildSerially: one goroutine per
+		// package calling Package.Build. It is spelled out here so that a builder panic (ill-formed
+		// IR can make later passes fall over) is recovered and reported as a violation instead of
+		// killing the harness. Should a panicking package leave another one waiting for a shared
+		// function, the wait is abandoned after a grace period.
+		var mu sync.Mutex
+		done := make(chan struct{})
+		var wg sync.WaitGroup
+		for _, bp := range built {
+			wg.Add(1)
+			go func(p *ir.Package) {
+				defer wg.Done()
+				defer func() {
+					if e := recover(); e != nil {
+						mu.Lock()
+						if buildPanic == "" {
+							buildPanic = fmt.Sprint(e)
+						}
+						mu.Unlock()
+					}
+				}()
+				p.Build()
+			}(bp.Pkg)
+		}
+		go func() { wg.Wait(); close(done) }()
+		select {
+		case <-done:
+		case <-time.After(5 * time.Minute):
+			mu.Lock()
+			if buildPanic == "" {
+				buildPanic = "concurrent build did not finish within 5 minutes"
+			} else {
+				buildPanic += " (and another package never finished building)"
+			}
+			mu.Unlock()
+		}
+		mu.Lock()
+		defer mu.Unlock()
+		return built, prog, "", buildPanic
 	}
 	return built, prog, "", buildPanic
 }
